@@ -39,6 +39,7 @@ import (
 	"crypto/elliptic"
 	"crypto/rand"
 	"crypto/rsa"
+	"crypto/sha256"
 	"crypto/x509"
 	"encoding/base64"
 	"encoding/json"
@@ -401,10 +402,57 @@ type asnEnv struct {
 	path     string // "client" | "bearer"
 	ep       string
 	provider fosite.OAuth2Provider
+	store    *asnStore
+}
+
+// asnStore is the reference store with a rendezvous in front of the two "has this jti been seen?" look-ups: when
+// several goroutines present one assertion (cconc / bconc) every one of them has looked before any of them
+// records the jti - the schedule under which "accepted at most once" rests on the recording step alone.  A
+// goroutine that is refused before it looks, or has finished, counts as arrived.  Without a barrier (all other
+// ops) the store behaves like the embedded one.
+type asnStore struct {
+	*storage.MemoryStore
+	mu      sync.Mutex
+	cond    *sync.Cond
+	n       int // goroutines taking part (0: no rendezvous)
+	arrived int
+}
+
+func (s *asnStore) arm(n int) {
+	s.mu.Lock()
+	s.n, s.arrived = n, 0
+	if s.cond == nil {
+		s.cond = sync.NewCond(&s.mu)
+	}
+	s.mu.Unlock()
+}
+
+// arrive: one goroutine has reached the look-up (or will never reach it)
+func (s *asnStore) arrive(wait bool) {
+	s.mu.Lock()
+	defer s.mu.Unlock()
+	if s.n == 0 {
+		return
+	}
+	s.arrived++
+	s.cond.Broadcast()
+	for wait && s.arrived < s.n {
+		s.cond.Wait()
+	}
+}
+
+func (s *asnStore) ClientAssertionJWTValid(ctx context.Context, jti string) error {
+	s.arrive(true)
+	return s.MemoryStore.ClientAssertionJWTValid(ctx, jti)
+}
+
+func (s *asnStore) IsJWTUsed(ctx context.Context, jti string) (bool, error) {
+	s.arrive(true)
+	return s.MemoryStore.IsJWTUsed(ctx, jti)
 }
 
 func asnBuildClient(f []string) (*asnEnv, bool) {
-	store := storage.NewMemoryStore()
+	store := &asnStore{MemoryStore: storage.NewMemoryStore()}
 	for _, c := range asnUnlist(asnKV(f, "regs")) {
 		p := strings.Split(c, "~")
 		if len(p) != 5 {
@@ -466,11 +514,11 @@ func asnBuildClient(f []string) (*asnEnv, bool) {
 	default:
 		return nil, false
 	}
-	return &asnEnv{path: "client", ep: ep, provider: p}, true
+	return &asnEnv{path: "client", ep: ep, provider: p, store: store}, true
 }
 
 func asnBuildBearer(f []string) (*asnEnv, bool) {
-	store := storage.NewMemoryStore()
+	store := &asnStore{MemoryStore: storage.NewMemoryStore()}
 	for _, k := range asnUnlist(asnKV(f, "keys")) {
 		p := strings.Split(k, "~")
 		if len(p) != 7 || asnPub[p[5]] == nil || asnKeyType(p[5]) != p[4] {
@@ -521,7 +569,7 @@ func asnBuildBearer(f []string) (*asnEnv, bool) {
 	default:
 		return nil, false
 	}
-	return &asnEnv{path: "bearer", provider: compose.ComposeAllEnabled(cfg, store, asnServer)}, true
+	return &asnEnv{path: "bearer", provider: compose.ComposeAllEnabled(cfg, store, asnServer), store: store}, true
 }
 
 // ---------------------------------------------------------------------------------------------
@@ -658,10 +706,16 @@ func execAssertion(t *testing.T, f []string) (obs string) {
 			time.Sleep(time.Duration(pres[0].dt))
 			res := make([]string, conc)
 			var wg sync.WaitGroup
+			// two thirds of the concurrent presentations run under the rendezvous (all look, then all record),
+			// one third free-running; which one is a function of the op line, so a replay does the same
+			if h := sha256.Sum256([]byte(strings.Join(f, "\t"))); h[0]%3 != 0 {
+				env.store.arm(conc)
+			}
 			for i := 0; i < conc; i++ {
 				wg.Add(1)
 				go func(i int) {
 					defer wg.Done()
+					defer env.store.arrive(false) // refused before the look-up, or done: do not keep the others waiting
 					defer func() {
 						if p := recover(); p != nil {
 							res[i] = fmt.Sprintf("panic %v", p)
